@@ -15,6 +15,10 @@ typedef int32_t val_t;
 typedef int64_t val_t;
 #define PHYS CARQUET_PHYSICAL_INT64
 #define FMT "%lld"
+#elif RT == 6
+typedef int32_t val_t;
+#define PHYS CARQUET_PHYSICAL_BOOLEAN
+#define FMT "%d"
 #elif RT == 2
 typedef float val_t;
 #define PHYS CARQUET_PHYSICAL_FLOAT
@@ -32,6 +36,7 @@ typedef double val_t;
 static val_t from_bits(uint64_t b) { val_t v; memcpy(&v, &b, sizeof v); return v; }
 static uint8_t *field(int present, uint64_t b, int32_t len) {
   if (!present) return NULL;
+  if (len < 0) len = 0;
   uint8_t *p = malloc((size_t)len);
   memcpy(p, &b, (size_t)len < sizeof b ? (size_t)len : sizeof b);
   return p;
@@ -41,8 +46,11 @@ CEX_MAIN {
   CEX_U64(nminbits); CEX_U64(nmaxbits); CEX_U64(dminbits); CEX_U64(dmaxbits);
   CEX_I64(op);
   int32_t L = (int32_t)sizeof(val_t);
-#ifdef STATS_LEN
-  L = STATS_LEN;
+  int32_t L1 = L, L2 = L, L3 = L, L4 = L;
+#ifdef ANYLEN
+  /* statistics fields of the lengths the verifier chose (capped: only small over-reads matter) */
+  CEX_I64(l1); CEX_I64(l2); CEX_I64(l3); CEX_I64(l4);
+  L1 = l1 > 64 ? 64 : (int32_t)l1; L2 = l2 > 64 ? 64 : (int32_t)l2; L3 = l3 > 64 ? 64 : (int32_t)l3; L4 = l4 > 64 ? 64 : (int32_t)l4;
 #endif
   static carquet_reader_t r; static carquet_schema_t s; static parquet_schema_element_t el[1];
   static int32_t leaf[1]; static parquet_row_group_t g; static parquet_column_chunk_t c;
@@ -51,10 +59,10 @@ CEX_MAIN {
   r.metadata.num_row_groups = 1; r.metadata.row_groups = &g; g.num_columns = 1; g.columns = &c;
   c.has_metadata = true; c.metadata.has_statistics = true;
   parquet_statistics_t *st = &c.metadata.statistics;
-  st->min_value = field(present & 1, nminbits, L); st->min_value_len = L;
-  st->max_value = field((present >> 1) & 1, nmaxbits, L); st->max_value_len = L;
-  st->min_deprecated = field((present >> 2) & 1, dminbits, L); st->min_deprecated_len = L;
-  st->max_deprecated = field((present >> 3) & 1, dmaxbits, L); st->max_deprecated_len = L;
+  st->min_value = field(present & 1, nminbits, L1); st->min_value_len = L1;
+  st->max_value = field((present >> 1) & 1, nmaxbits, L2); st->max_value_len = L2;
+  st->min_deprecated = field((present >> 2) & 1, dminbits, L3); st->min_deprecated_len = L3;
+  st->max_deprecated = field((present >> 3) & 1, dmaxbits, L4); st->max_deprecated_len = L4;
   val_t *value = malloc(sizeof(val_t)); *value = from_bits(vbits);
   val_t x = from_bits(xbits), v = *value;
   bool mm = false;
@@ -65,7 +73,7 @@ CEX_MAIN {
   if (present & 4) fprintf(stderr, " min(deprecated)=" FMT, PR(from_bits(dminbits)));
   if (present & 8) fprintf(stderr, " max(deprecated)=" FMT, PR(from_bits(dmaxbits)));
   fprintf(stderr, " -> rc=%d might_match=%d\n", (int)rc, (int)mm);
-#ifndef STATS_LEN
+#ifndef ANYLEN
   bool bounds = true;
   if (present & 1) bounds = bounds && from_bits(nminbits) <= x;
   if (present & 2) bounds = bounds && x <= from_bits(nmaxbits);
